@@ -16,7 +16,7 @@ EXPLANATION = (
     'and the same body; R15.c both APIs return a shell-reported error unmodified; R15.d decoders propagate every failure as an '
     'error value; R15.e the only headers written on the path are the shell\'s (a side-effecting set_body is undone before they '
     'are appended, and headers are snapshotted before the body is taken); R15.f decode_body produces a String only behind the success edge of '
-    'the charset-label lookup; R15.g body_json parses the raw body bytes (JSON is UTF-8 whatever the Content-Type says) and never goes through the charset decoder. R15.j every expectation decodes the body of the response it was given (no with_body / set_body before the read). R15.i where a shell HttpResponse becomes a response object, set_body takes the `body` field of that response itself (moved, Into / From / from_bytes at most), never a reader with a declared length or a re-encoding. Decoder conformance (encoding_rs, serde_json) is trusted. R15.a also lists std methods that panic on argument values (String::truncate, split_at, Vec::remove, ...).')
+    'the charset-label lookup; R15.g body_json parses the raw body bytes (JSON is UTF-8 whatever the Content-Type says) and never goes through the charset decoder. R15.k crux_http decodes JSON through the whole-document entry points of serde_json only: a Deserializer built by hand must pass end() before every successful return (controls in the fixtures). R15.j every expectation decodes the body of the response it was given (no with_body / set_body before the read). R15.i where a shell HttpResponse becomes a response object, set_body takes the `body` field of that response itself (moved, Into / From / from_bytes at most), never a reader with a declared length or a re-encoding. Decoder conformance (encoding_rs, serde_json) is trusted. R15.a also lists std methods that panic on argument values (String::truncate, split_at, Vec::remove, ...).')
 
 HT = 'http_types_red_badger_temporary_fork'
 SAFE_STATUS_T = HT + '::status_code::StatusCode'
@@ -125,6 +125,7 @@ def check(ctx, rep):
         check_body_whole(rep, http, cfg)
         check_expectations_read_the_response(rep, http, cfg)
         check_json_from_bytes(rep, http, cfg)
+        check_json_whole_document(rep, http, cfg)
         check_charset_from_mime(rep, http, cfg)
     controls(ctx, rep)
     rep.assume('http_types fork: Response::new/insert_header/append_header/Headers::{insert,append} unwrap their conversions; '
@@ -368,6 +369,10 @@ def controls(ctx, rep):
     rep.control('R15.a fires on http_types::Response::new(u16)', bool(fs) and any(panicking_entry(t) for _, t in fs[0].calls()))
     fs = c.find('c15::bad_header')
     rep.control('R15.a fires on append_header(&str, String)', bool(fs) and any(panicking_entry(t) for _, t in fs[0].calls()))
+    fs = c.find('c15::decode_json_prefix')
+    rep.control('R15.k fires on a Deserializer driven by hand without end()', bool(fs) and bool(unfinished_json_decoders(fs[0])[0]))
+    fs = c.find('c15::decode_json_whole')
+    rep.control('R15.k quiet on a hand-driven Deserializer that calls end()', bool(fs) and unfinished_json_decoders(fs[0]) == ([], 1))
     fs = c.find('c15::good_status')
     rep.control('R15.a quiet on Response::new(StatusCode)', bool(fs) and not any(panicking_entry(t) for _, t in fs[0].calls()))
 
@@ -408,6 +413,43 @@ def check_json_from_bytes(rep, http, cfg):
                    'which a conforming JSON decoder ignores' % (r.path, ', '.join(sorted(set(norm(t['callee']) for g, bb, t in des))) or 'no serde_json call',
                                                                '; calls ' + ', '.join(sorted(set(last_seg(t['callee']) for g, bb, t in charset))) if charset else ''),
                    site=key + '@' + cfg)
+
+
+JSON_HAND_BUILT = re.compile(r'^serde_json::de::(Deserializer|StreamDeserializer)\b.*::(from_slice|from_str|from_reader|new|into_iter)$')
+
+
+def unfinished_json_decoders(f):
+    """hand-built serde_json deserialisers in f from which a return that is not an error return can be reached without end()"""
+    out = []
+    ctors = [bb for bb, t in f.calls() if JSON_HAND_BUILT.match(norm(t.get('callee') or ''))]
+    if not ctors:
+        return out, 0
+    ends = [bb for bb, t in f.calls() if re.match(r'^serde_json::de::Deserializer\b.*::end$', norm(t.get('callee') or ''))]
+    errs = [bb for bb, i, s_ in f.stmts('assign') if s_['rv']['k'] == 'agg' and s_['rv'].get('variant') == 'Err']
+    errs += [bb for bb, t in f.calls('core::ops::try_trait::FromResidual::from_residual')]
+    for c in ctors:
+        r = f.reachable_after(c, removed_blocks=set(ends) | set(errs))
+        if any(b in r for b in f.return_blocks()):
+            out.append(c)
+    return out, len(ctors)
+
+
+def check_json_whole_document(rep, http, cfg):
+    """R15.k: a JSON expectation yields what a conforming decoder yields for the WHOLE body: crux_http decodes JSON through the
+    whole-document entry points of serde_json (from_slice / from_str / from_reader / from_value, which fail on trailing data); a
+    deserialiser it builds by hand must pass Deserializer::end() on every path to a successful return"""
+    rep.rule('R15.k', 'JSON is decoded as a whole document: no hand-built serde_json Deserializer in crux_http returns without end()', floor=1)
+    bad, n = [], 0
+    for f in http.built:
+        if f.j.get('exp') or '::testing' in f.npath:
+            continue
+        u, k = unfinished_json_decoders(f)
+        n += k
+        bad += [f.where(b) for b in u]
+    rep.expect('R15.k', not bad, 'json-whole-document', 'no hand-built JSON deserialiser without end() (%d hand-built in all)' % n,
+               'crux_http drives a serde_json Deserializer by hand and can return the value without end() (%s): a body that starts with a '
+               'valid JSON document and carries more data after it is accepted as that document, where a conforming decoder reports '
+               'trailing characters' % bad, site='json-whole-document@' + cfg)
 
 
 def check_charset_from_mime(rep, http, cfg):
